@@ -261,10 +261,57 @@ def int_constants(E, nt):
     vals = set()
     if nt not in G.nts:
         return vals
+    helpers, consts = {}, {}
+    for h in G.g.get("helpers") or []:
+        (consts if h.get("kind") == "const" else helpers).setdefault(h["name"], []).append(h)
+
+    def follow(ast, depth=0):
+        """the tests applied to the number: in the action itself, in a helper predicate the action calls on it
+        (`is_supported(n)`), and the literals of a constant table it is looked up in (`TABLE.contains(&n)`)"""
+        collect_int_cmps(ast, vals)
+        if depth > 2:
+            return
+
+        def walk(n):
+            if isinstance(n, dict):
+                if n.get("k") == "call" and isinstance(n.get("f"), dict) and n["f"].get("k") == "path":
+                    hs = helpers.get(n["f"]["segs"][-1]) or []
+                    if len(hs) == 1 and len(hs[0]["params"]) == 1:
+                        follow(hs[0]["body"], depth + 1)
+                if n.get("k") == "mcall" and n.get("m") == "contains" and isinstance(n.get("recv"), dict) and n["recv"].get("k") == "path":
+                    cs = consts.get(n["recv"]["segs"][-1]) or []
+                    if len(cs) == 1:
+                        lits_of(cs[0]["expr"], vals)
+                for v in n.values():
+                    walk(v)
+            elif isinstance(n, list):
+                for v in n:
+                    walk(v)
+        walk(ast)
     for k, p in enumerate(G.productions(nt)):
-        ua = G.main_user_action(p["action"])
-        collect_int_cmps(ua.get("ast"), vals)
+        follow(G.main_user_action(p["action"]).get("ast"))
     return vals
+
+
+def lits_of(n, out):
+    if isinstance(n, dict):
+        if n.get("k") == "lit" and n.get("ty") == "int" and isinstance(n.get("v"), int):
+            out.add(n["v"])
+        for v in n.values():
+            lits_of(v, out)
+    elif isinstance(n, list):
+        for v in n:
+            lits_of(v, out)
+
+
+def has_contains_on_const(n):
+    if isinstance(n, dict):
+        if n.get("k") == "mcall" and n.get("m") == "contains" and isinstance(n.get("recv"), dict) and n["recv"].get("k") == "path" and n["recv"]["segs"][-1].isupper():
+            return True
+        return any(has_contains_on_const(v) for v in n.values())
+    if isinstance(n, list):
+        return any(has_contains_on_const(v) for v in n)
+    return False
 
 
 def collect_int_cmps(node, vals):
